@@ -26,6 +26,7 @@ EXPLANATION = (
     "(shared with C14-PAIR); unit numbers come from enumerate(start=1) or counters starting at 1. (META) every yield of an "
     "extractor is dominated by populate_from_path(path) on the yielded object's metadata, and populate_from_path returns "
     "before touching anything when path is None."
+    " (PROP) string properties of the OLE summary streams are decoded with the code page of their property set, never with a fixed codec and never strictly; repeatable properties (ODF meta:keyword, EPUB dc:creator / dc:subject / dc:contributor) are collected with findall."
 )
 NOT_DECIDED = ["accessors never raise (in general)", "document properties reported unchanged (value identity through XML/OLE readers)", "behaviour on damaged-but-accepted files beyond the nullness facts", "which of several stored values feeds a metadata field when a file carries more than one candidate (e.g. <meta name=description> and og:description): value-level choice"]
 TRUSTED = ["ElementTree .text / one-argument .get / .find may return None", "str methods return str", "nullness and interval engines"]
